@@ -402,7 +402,8 @@ where
             self.line_buf.clear();
             let n = self.stream.read_line(&mut self.line_buf)?;
             let path_str = &self.line_buf;
-            if n == 0 {
+            // a path line without its terminator means the report was cut off in the middle of it
+            if n == 0 || !path_str.ends_with('\n') {
                 return Err(Error::new(
                     ErrorKind::UnexpectedEof,
                     "Unexpected end of file.",
